@@ -238,6 +238,13 @@ def run(ck):
         ck.broken.append(f"correspondence on generated registries: {gbad} disagreements")
         if not fails:
             ck.violation("correspondence-generated", "model and implementation disagree on a generated registry; no property oracle failed", gfirst, no_input=True)
+    rtot, rbad, rfirst = regk.redefinition_stream(ck, rng, 24 if thorough else 5, oracle, "c02")
+    ck.extra["rewriting_context_cases"] = rtot
+    ck.extra["rewriting_context_disagreements"] = rbad
+    if rbad:
+        ck.broken.append(f"correspondence on definitions rewritten by a context: {rbad} disagreements")
+        if not fails:
+            ck.violation("correspondence-redefined", "model of the rewritten file and pint inside the context disagree; no property oracle failed", rfirst, no_input=True)
     bad = ck.coq_mismatches("c02", regk.HEADER, cases, "ok")
     ck.extra["model_vs_impl_cases"] = len(cases)
     ck.extra["model_vs_impl_disagreements"] = None if bad is None else len(bad)
